@@ -30,6 +30,7 @@ fn main() {
         child::enable_counting();
         match args.get(2).map(|s| s.as_str()) {
             Some("vm") => props::c11::child_main(&args[3..]),
+            Some("stf") => props::c09::child_main(&args[3..]),
             _ => std::process::exit(2),
         }
         return;
@@ -56,7 +57,7 @@ fn main() {
     }
     guard::install();
     rayon::ThreadPoolBuilder::new().num_threads(16).stack_size(16 << 20).build_global().ok();
-    let run = Run::new(&id, &tier);
+    let run: &'static Run = Box::leak(Box::new(Run::new(&id, &tier)));
     if let Some(path) = replay {
         let body: serde_json::Value = match std::fs::read_to_string(&path).ok().and_then(|s| serde_json::from_str(&s).ok()) {
             Some(v) => v,
@@ -83,24 +84,26 @@ fn main() {
         std::process::exit(if n > 0 { 1 } else { 0 });
     }
     let body = std::panic::catch_unwind(std::panic::AssertUnwindSafe(|| match id.as_str() {
-        "C01" => props::c01::run(&run),
-        "C02" => props::c02::run(&run),
-        "C15" => props::c15::run(&run),
-        "C16" => props::c16::run(&run),
-        "C20" => props::c20::run(&run),
-        "C03" => props::c03::run(&run),
-        "C06" => props::c06::run(&run),
-        "C07" => props::c07::run(&run),
-        "C08" => props::c08::run(&run),
-        "C19" => props::c19::run(&run),
-        "C04" => props::c04::run(&run),
-        "C05" => props::c05::run(&run),
-        "C13" => props::c13::run(&run),
-        "C10" => props::c10::run(&run),
-        "C11" => props::c11::run(&run),
-        "C12" => props::c12::run(&run),
-        "C14" => props::c14::run(&run),
-        "C17" => props::c17::run(&run),
+        "C01" => props::c01::run(run),
+        "C02" => props::c02::run(run),
+        "C15" => props::c15::run(run),
+        "C16" => props::c16::run(run),
+        "C20" => props::c20::run(run),
+        "C03" => props::c03::run(run),
+        "C06" => props::c06::run(run),
+        "C07" => props::c07::run(run),
+        "C08" => props::c08::run(run),
+        "C19" => props::c19::run(run),
+        "C04" => props::c04::run(run),
+        "C05" => props::c05::run(run),
+        "C13" => props::c13::run(run),
+        "C18" => props::c18::run(run),
+        "C09" => props::c09::run(run),
+        "C10" => props::c10::run(run),
+        "C11" => props::c11::run(run),
+        "C12" => props::c12::run(run),
+        "C14" => props::c14::run(run),
+        "C17" => props::c17::run(run),
         _ => {
             eprintln!("unknown or unimplemented property {}", id);
             std::process::exit(2);
